@@ -11,6 +11,7 @@ import (
 
 	"github.com/cnotch/ipchub/av/codec"
 	"github.com/cnotch/ipchub/av/format/amf"
+	"github.com/cnotch/ipchub/utils/verifhook"
 	"github.com/cnotch/queue"
 	"github.com/cnotch/xlog"
 )
@@ -111,6 +112,7 @@ func (muxer *Muxer) process() {
 	var packSequenceHeader bool
 
 	for !muxer.closed {
+		verifhook.Point("flvmuxer.beforePop", 0)
 		f := muxer.recvQueue.Pop()
 		if f == nil {
 			if !muxer.closed {
